@@ -13,4 +13,11 @@ PROPS = {
         "text": "The MIR of pallas_validate::phase1::validate_txs (regenerated from /repo on every run) is executed symbolically with an opaque CertState and an uninterpreted validate_tx that may do anything to the delta state it is handed: on every path that returns Err the caller's certificate state is the entry value, on every path that returns Ok it is the delta state left by the last validate_tx call, and each call receives the delta state left by the previous one (initially a clone of the entry state). Bounded by the loop unrolling (quick: success after 0..3 / failure at 1..4 transactions; thorough: 0..6 / 1..7).",
         "note": "Outside: what validate_tx does to the state (any effect is allowed), panics inside callees. Trusted: Clone::clone returns an equal value; core's Try/FromResidual for Result; the MIR text; mirsym's interpreter.",
     },
+    "C17": {
+        "m": ["c17"],
+        "level": "model_checking",
+        "technique": "symbolic execution of the rustc MIR of the Decimal operators into SMT with dashu IBig mapped to unbounded SMT integers; exactness formulas decided by z3 and cross-checked by cvc5 (z3 5.x as tie-breaker when one gives up)",
+        "text": "The MIR of Decimal::{floor, ceil, trunc, round, neg, abs, add, sub, mul, div (by value, by reference and the *Assign forms), partial_cmp, eq} and of scale/div/div_qr is regenerated from /repo and executed symbolically with the raw data as unbounded integers: floor/ceil/trunc/round return the multiple of 10^p their name prescribes (round within one half), add/sub/neg/abs are exact, mul is the floor of the exact product and div the truncation of the exact quotient at 34 digits, comparisons agree with the integers; for every value, at precisions p in {0,1,2,34} (thorough adds 3, 9, 18).",
+        "note": "Unbounded in the values, bounded in the precision. Trusted: the IBig operator table (truncating division, sign(0)=Positive, exact product kept as one opaque term), validated natively against dashu at setup; the Decimal invariant multiplier = 10^precision on inputs. Outside: Display/from_str (printing), exp/ln/pow, mul/div at precisions other than 34.",
+    },
 }
